@@ -34,8 +34,8 @@ def run(ctx):
     racelog = ctx.path("nl", "race")
     env = {"GORACE": "log_path=%s halt_on_error=0 exitcode=0" % racelog}
     tp = ctx.path("nl", "trace.ndjson")
-    summ = ctx.driver_json(["netlink-cases", "--seed", ctx.seed, "--out", tp, "--reps", 1 if q else 6,
-                            "--rounds", 20 if q else 300, "--senders", 8, "--per-sender", 25], race=True, env=env, timeout=3000)
+    summ = ctx.driver_json(["netlink-cases", "--seed", ctx.seed, "--out", tp, "--reps", 1 if q else 12,
+                            "--rounds", 20 if q else 1000, "--senders", 8, "--per-sender", 25], race=True, env=env, timeout=3000)
     st = summ["stats"]
     ctx.log("real transport: %s; skipped: %s" % (st, summ["skipped"][:3]))
     if summ["skipped"]:
